@@ -273,6 +273,7 @@ def run_shard(spec, acc):
         acc.flags["exhaustive_mutations"] = True
     elif k == "diagram":
         diagram_sequences(acc)
+        diagram_reconfigured(acc)
     elif k == "entry":
         entry_points(acc)
     else:
@@ -303,6 +304,51 @@ def diagram_sequences(acc):
                 acc.evaluated()
                 acc.count("diagram_histories")
                 acc.nontrivial({"d": HUB.case["seq"], "m": mode})
+
+
+def diagram_reconfigured(acc):
+    """A DiagramRule object that was applied once (validly) and is then re-configured: re-based to a package that does
+    not exist / lacks the diagram's components, pointed to a tag-less file, or its own file rewritten without tags.
+    The judge reads file, base and components at every application, so the later applications must raise too."""
+    from pytestarch import DiagramRule
+
+    from ..monitors_more import register_puml
+
+    d = os.path.join(trees.scratch_dir(), "puml13c")
+    os.makedirs(d, exist_ok=True)
+    tagless = os.path.join(d, "tagless.puml")
+    open(tagless, "w").write("[a] --> [b]\n")
+    steps = {
+        "rebase-to-missing-package": lambda r, good: r.with_base_module("nope"),
+        "rebase-to-package-without-the-components": lambda r, good: r.with_base_module("r.a"),
+        "names-are-fully-qualified-now": lambda r, good: r.base_module_included_in_module_names(),
+        "point-to-tagless-file": lambda r, good: r.from_file(Path(tagless)),
+        "file-rewritten-without-tags": lambda r, good: open(good, "w").write("[a] --> [b]\n"),
+        "file-rewritten-with-other-components": lambda r, good: (open(good, "w").write("@startuml\n[a] --> [zz]\n@enduml\n"), register_puml(good, ["a", "zz"], [("a", "zz")])),
+    }
+    n = 0
+    for mode in (True, False):
+        for first in steps:
+            for second in [None] + list(steps):
+                n += 1
+                good = os.path.join(d, f"good{n}.puml")
+                open(good, "w").write("@startuml\n[a] --> [b]\n@enduml\n")
+                register_puml(good, ["a", "b"], [("a", "b")])
+                r = DiagramRule(should_only_rule=mode).from_file(Path(good)).with_base_module("r")
+                HUB.case = {"kind": "diagram_reconfigured", "steps": [first, second], "should_only": mode}
+                run(r, ev())
+                acc.evaluated()
+                for st in (first, second):
+                    if st is None:
+                        continue
+                    try:
+                        steps[st](r, good)
+                    except Exception:  # noqa: BLE001
+                        break
+                    run(r, ev())
+                    acc.evaluated()
+                    acc.count("diagram_rules_reconfigured_after_application")
+                os.unlink(good)
 
 
 def entry_points(acc):
@@ -509,6 +555,8 @@ def replay(case, acc):
         run(mk_rule(cfg), evl)
     elif k == "diagram_seq":
         diagram_sequences(acc)
+    elif k == "diagram_reconfigured":
+        diagram_reconfigured(acc)
     elif k == "entry":
         entry_points(acc)
     else:
@@ -521,7 +569,7 @@ def floors(acc, tier):
         for c in need:
             if acc.hists.get(hist, {}).get(c, 0) == 0:
                 why.append(f"{hist}: class {c} never observed")
-    for c, n in (("c13_rule_evaluations", 5000), ("c13_layer_evaluations", 500), ("c13_diagram_evaluations", 50), ("c13_entry_point_invalid_calls", 50), ("c13_unknown_module_evaluations", 300), ("c13_unmatched_regex_evaluations", 50), ("c13_calls_that_must_raise", 100), ("several_patterns_one_unmatched", 50), ("c13_diagram_unknown_component_evaluations", 50)):
+    for c, n in (("c13_rule_evaluations", 5000), ("c13_layer_evaluations", 500), ("c13_diagram_evaluations", 50), ("c13_entry_point_invalid_calls", 50), ("c13_unknown_module_evaluations", 300), ("c13_unmatched_regex_evaluations", 50), ("c13_calls_that_must_raise", 100), ("several_patterns_one_unmatched", 50), ("c13_diagram_unknown_component_evaluations", 50), ("diagram_rules_reconfigured_after_application", 50)):
         if acc.counters[c] < n:
             why.append(f"{c}: only {acc.counters[c]}")
     acc.flags["exhaustive"] = all(acc.flags.get(f) for f in ("exhaustive_rule_sequences", "exhaustive_layer_sequences", "exhaustive_mutations", "exhaustive_entry_options"))
